@@ -49,13 +49,14 @@ func init() {
 	reg("c05", "BusPages", func(a []int64) { c05.BusPages(int(a[0])) })
 	reg("c05", "PakPages", func(a []int64) { c05.PakPages(int(a[0])) })
 	reg("c13", "Route", func(a []int64) { c13.Route(int(a[0])) })
-	reg("c13", "Misaligned", func(a []int64) { c13.Misaligned(int(a[0])) })
+	reg("c13", "Misaligned", func(a []int64) { c13.Misaligned(int(a[0]), int(a[1]), int(a[2])) })
 	reg("c13", "Dump", func(a []int64) { c13.Dump(int(a[0]), int(a[1]), int(a[2])) })
 	reg("c14", "Line", func(a []int64) { c14.Line(int(a[0]), int(a[1]), int(a[2]), int(a[3])) })
 	reg("c14", "LoggerOnOff", func(a []int64) { c14.LoggerOnOff(int(a[0]), int(a[1]), int(a[2])) })
 	reg("c14", "LoggerLongRun", func(a []int64) { c14.LoggerLongRun(int(a[0])) })
 	reg("c15", "Listing", func(a []int64) { c15.Listing(a[0], int(a[1]), int(a[2]), int(a[3]), int(a[4])) })
 	reg("c16", "Split", func(a []int64) { c16.Split(a[0], int(a[1]), int(a[2]), int(a[3]), int(a[4])) })
+	reg("c16", "TwoClones", func(a []int64) { c16.TwoClones(int(a[0]), int(a[1])) })
 	reg("c16", "AppendTooBig", func(a []int64) { c16.AppendTooBig(int(a[0]), int(a[1]), int(a[2]), int(a[3])) })
 	reg("c19", "Data", func(a []int64) { c19.Data(int(a[0]), int(a[1]), int(a[2])) })
 	reg("c19", "DrySequence", func(a []int64) { c19.DrySequence(int(a[0]), int(a[1])) })
